@@ -247,7 +247,10 @@ def rebin(img, factor):
 
     if img.ndim == 3:
         rebinned_shape = (img.shape[0], img.shape[1]//factor, img.shape[2]//factor)
-        img_rebinned = np.zeros(rebinned_shape, dtype=img.dtype)
+        # accumulate in the dtype of the block sums (small integer types are
+        # promoted by sum() and would otherwise wrap around on assignment)
+        sum_dtype = img[:0].sum(-1).dtype
+        img_rebinned = np.zeros(rebinned_shape, dtype=sum_dtype)
         for i in range(img.shape[0]):
             img_rebinned[i] = img[i].reshape(rebinned_shape[1], factor,
                                              rebinned_shape[2], factor).sum(-1).sum(1)
